@@ -130,7 +130,8 @@ def gen_wstep(rng, tier, index, replicas=None, machines=('48K', '48K', '128K', '
             mem['patches'].append([(pc + 1) & 0xFFFF, 'fe'])
     elif g in ('DD', 'FD') or (g == '' and op in (0xDD, 0xFD, 0xFB)):
         steps = rng.choice((1, 2, 2, 3))
-    if g == '' and op == 0x76 and rng.random() < 0.4:
+    if g == '' and op == 0x76 and rng.random() < 0.4 and 0x4000 <= pc:
+        # halted state: only meaningful when the byte at PC really is the HALT opcode (PC in RAM, so the patch lands)
         regs[28] = 1
         steps = rng.choice((1, 2, 3))
     phase = gen_phase(rng, machine)
